@@ -510,6 +510,18 @@ func init() {
 		failed := fc.heapGet(st, "GV$scanFailed", SBool)
 		return maybeErr(fc, Term{not(failed.S), SBool})
 	}
+	// io.WriteString(w, s): either the whole string is written ($written counts the successful
+	// writes) or an error is returned ($writeFailed is set). The writer itself is not modelled.
+	libModels["io.WriteString"] = func(fr *frame, in ssa.Instruction, c *ssa.CallCommon, args []Val, st *State, reach string) Val {
+		fc := fr.fc
+		n := fc.heapGet(st, "GV$written", SInt)
+		failed := fc.heapGet(st, "GV$writeFailed", SBool)
+		ok := fc.fresh("write_ok", SBool)
+		st.heap["GV$written"] = fc.define("written", Term{fmt.Sprintf("(ite %s (+ %s 1) %s)", ok.S, n.S, n.S), SInt})
+		st.heap["GV$writeFailed"] = fc.define("writefailed", Term{fmt.Sprintf("(or %s (not %s))", failed.S, ok.S), SBool})
+		return &Tuple{[]Val{Term{"(str.len " + tArg(args, 1).S + ")", SInt}, maybeErr(fc, ok)}}
+	}
+	libTouches["io.WriteString"] = []string{"GV$written", "GV$writeFailed"}
 	libTouches["bufio.(*Scanner).Scan"] = []string{"GV$scanRem", "GV$scanFailed"}
 	libTouches["bufio.NewScanner"] = []string{"GV$scanRem", "GV$scanFailed", "Alloc"}
 }
